@@ -505,6 +505,8 @@ fn run_http(case: &HttpCase) -> CaseReport {
     rep
 }
 
+include!("c02/live.rs");
+
 fn main() {
     let mut check = Check::new("C02", "exploration");
     check.assume("read-only / no-op classification taken from the property statement and docs/03_contracts/compaction.md: status, cut-points, replay, stream open, dry_run=true, auto/schedule answering noop/dry_run, rotate with nothing to rotate, reopening the log");
@@ -519,6 +521,14 @@ fn main() {
         GroupOpts { cases: n, ..Default::default() },
         http_case_strategy,
         run_http,
+    );
+    let n = check.cases(240, 8_000);
+    check.group(
+        "live",
+        "1-5 steps through the real router on a LIVE authority (stub and tool runs on a thread, plain sessions, bash background tasks with stdout/stderr/exit codes, manual and auto compaction): after every step, once all streams it started have logged their terminal frame and the log has settled, the log must extend the previous bytes by whole frames only; then 2-13 read-only requests against the still-registered handles (session / task / thread SSE streams, task list / status / output pages, thread reads, statuses, dry runs, a refused second input) must each add nothing (growth is reported only if it repeats when the request is repeated). non-trivial = >=1 session/task stream and a session/task read; distinct by case hash",
+        GroupOpts { cases: n, watchdog_s: 600, max_shrink_iters: 64, ..Default::default() },
+        live_case_strategy,
+        run_live,
     );
     check.finish();
 }
